@@ -1,15 +1,17 @@
-"""C15 helpers: library models for the three regular expressions of fmt/cif.py on structured strings, and the
-interpreter subclass that routes the few str operations the stock engine cannot do on a line that *starts* with a formatted number.
+"""C15 helpers: library models for the regular expressions of fmt/cif.py on structured strings, a few CPython models
+(float of integer text, float.is_integer, hasattr, itertools.groupby) and the interpreter subclass that adds the str/dict
+operations the stock engine lacks for lines that start with a rendered number or with symbolic text.
 
-Everything here is a model of a DEPENDENCY (CPython `re`, `float`, `hasattr`, `itertools.groupby`, `str.strip`), never of chmpy code.
-Each regex rule is keyed on the exact pattern text read from the real source: an edited pattern has no rule (-> undecided, and the
-run-time stand-ins decide).  The rules are cross-checked against the real `re` module on an exhaustive small-alphabet corpus (G).
+Everything here models a DEPENDENCY (CPython `re`, `float`, `hasattr`, `itertools.groupby`, `str.strip`, dict lookup), never
+chmpy code.  Each regex rule is keyed on the exact pattern text found in the real source: an edited pattern has no rule
+(-> the obligation is undecided and the run-time stand-ins decide).  The rules are cross-checked against the real `re`
+module on an exhaustive small-alphabet corpus (obligation C15/models/regex_rules_conform).
 
 Atoms of an abstract string
   ("c", ch)            one concrete character
   ("num", Fmt, pad)    a rendered number: [blank padding] [-] digits [. digits]; pad in {"yes","no","maybe","stripped"}
-  ("word", Sym)        unknown text of a registered class (see WORDS): non-empty, no blank, no quote character, no ';',
-                        first character none of  _ # ; ' "  and not spelled like a number
+  ("w", Sym, role)     symbolic text of the class WORD (role "first": one ASCII letter; "mid": any number of WORD characters;
+                        "last": one WORD character).  WORD characters: printable ASCII 33..126 without ' " ; _
 """
 import re as _re
 from fractions import Fraction
@@ -18,12 +20,37 @@ import z3
 
 from pyvc.strings import SStr, Lit, Fmt, Sym, I_valid, STR_METHODS
 from pyvc.symex import Interp, ModelFn, BoundModel, FuncVal
-from pyvc.values import PyRaise, Unsupported, is_sym, num_binop, num_cmp, simp, to_real, z
-from pyvc.libmodels import MatchVal, RegexVal, _as_rx, _wrap_match
+from pyvc.values import PyRaise, Unsupported, is_sym, num_cmp, to_real, z
+from pyvc.libmodels import MatchVal, _as_rx, MODELS
 
 NUM_PAT = r"([-+]?(\d+([.,]\d*)?|[.,]\d+)([eE][-+]?\d+)?)(\(\d+\))?"
 VAL_PAT = r"""('.*?'|".*?"|;.*?;|\S+)"""
+QUOTE_PATS = {q + r"\s*([^" + q + r"]*)\s*" + q: (q, True) for q in ("'", '"', ";")}          # pattern text -> (delimiter, leading \s* present)
+QUOTE_PATS.update({q + r"([^" + q + r"]*)" + q: (q, False) for q in ("'", '"', ";")})
 TWO53 = 2 ** 53
+WORD_CHARS = "".join(chr(c) for c in range(33, 127) if chr(c) not in "'\";_")
+LETTERS = "abcdefghijklmnopqrstuvwxyzABCDEFGHIJKLMNOPQRSTUVWXYZ"
+
+
+# ------------------------------------------------------------------------------------------------ symbolic words
+def _union_chars(chars):
+    return z3.Union(*[z3.Re(z3.StringVal(c)) for c in chars])
+
+
+def word(name):
+    """(segments, constraints) of a symbolic string w = f.mid.l with f one ASCII letter, mid in WORD*, l one WORD character.
+    The class is carried by the segments (attribute c15_role) and used structurally; no string-theory constraint is needed
+    (the only facts the solver sees are the lengths: 1, len >= 0, 1)."""
+    f, m, l = z3.String(name + "_f"), z3.String(name + "_m"), z3.String(name + "_l")
+    ln = z3.Int(name + "_len")
+    segs = [Sym(f, "noblank+", 1), Sym(m, "noblank+", ln), Sym(l, "noblank+", 1)]
+    for sg, role in zip(segs, ("first", "mid", "last")):
+        sg.c15_role = role
+    return segs, [ln >= 0]
+
+
+def _is_word(seg):
+    return isinstance(seg, Sym) and getattr(seg, "c15_role", None) is not None
 
 
 # ------------------------------------------------------------------------------------------------ atoms
@@ -45,16 +72,16 @@ def _pad_status(I, f):
 
 
 def atoms(I, s):
-    out = []
     if isinstance(s, str):
         return [("c", ch) for ch in s]
+    out = []
     for seg in s.segs:
         if isinstance(seg, Lit):
             out.extend(("c", ch) for ch in seg.text)
         elif isinstance(seg, Fmt):
             out.append(("num", seg, _pad_status(I, seg)))
-        elif isinstance(seg, Sym) and seg.lang == "noblank+" and getattr(seg, "c15_word", False):
-            out.append(("word", seg))
+        elif _is_word(seg):
+            out.append(("w", seg, seg.c15_role))
         else:
             raise Unsupported(f"regex rule: segment {seg!r} of unknown character class")
     return out
@@ -64,23 +91,17 @@ def _is_space(a):
     return a[0] == "c" and a[1].isspace()
 
 
-def _join(I, ats):
-    """Atoms -> str | SStr.  A padded number is kept whole (the caller strips where the padding is outside the token)."""
-    parts = []
-    for a in ats:
-        if a[0] == "c":
-            parts.append(a[1])
-        else:
-            parts.append(a[1])
-    if not parts:
+def _text(ats):
+    """Atoms -> str | SStr (rendered numbers are kept as they are)."""
+    if not ats:
         return ""
-    return SStr.concat(parts)
+    return SStr.concat([a[1] for a in ats])
 
 
 # ------------------------------------------------------------------------------------------------ VALUES_REGEX.findall
 def values_findall(I, s):
-    """re.findall(r'''('.*?'|".*?"|;.*?;|\\S+)''', s): scan left to right; at a quote or ';' try the lazy quoted form (up to the next
-    identical delimiter, not across a newline), else the maximal run of non-blank characters."""
+    """re.findall(VALUES_REGEX, s) = the group of each successive match, scanning left to right: at ' " or ; the lazy quoted form
+    (up to the next identical delimiter on the same line) if there is one, otherwise the maximal run of non-blank characters."""
     ats = atoms(I, s)
     n = len(ats)
     toks = []
@@ -90,57 +111,36 @@ def values_findall(I, s):
         if _is_space(a):
             i += 1
             continue
-        if a[0] == "num" and a[2] in ("yes", "maybe", "no") and a[2] != "no":
-            # possible blank padding belongs to the gap; the token starts at the sign/first digit
-            pass
         if a[0] == "c" and a[1] in "'\";":
-            j = i + 1
             found = None
-            while j < n:
+            for j in range(i + 1, n):
                 b = ats[j]
                 if b[0] == "c" and b[1] == "\n":
                     break
                 if b[0] == "c" and b[1] == a[1]:
                     found = j
                     break
-                if b[0] == "num" and b[2] in ("yes", "maybe") and False:
-                    pass
-                j += 1
             if found is not None:
-                toks.append(_token(I, ats[i:found + 1], quoted=True))
+                toks.append(_text(ats[i:found + 1]))       # everything between the delimiters, padding included
                 i = found + 1
                 continue
-        # \S+
         j = i
+        parts = []
         while j < n and not _is_space(ats[j]):
-            if j > i and ats[j][0] == "num" and ats[j][2] != "no" and ats[j][2] != "stripped":
-                if ats[j][2] == "yes":
-                    break               # blank padding ends the run
+            b = ats[j]
+            if b[0] == "num" and b[2] in ("yes", "maybe"):
+                if j == i:
+                    parts.append(b[1].stripped())               # the padding is part of the gap before the token
+                    j += 1
+                    continue
+                if b[2] == "yes":
+                    break                                       # blank padding ends the run
                 raise Unsupported("a number whose padding may be empty directly follows non-blank text")
+            parts.append(b[1])
             j += 1
-        toks.append(_token(I, ats[i:j], quoted=False))
+        toks.append(SStr.concat(parts))
         i = j
     return toks
-
-
-def _token(I, ats, quoted):
-    parts = []
-    for k, a in enumerate(ats):
-        if a[0] == "c":
-            parts.append(a[1])
-        elif a[0] == "num":
-            if k == 0 and not quoted:
-                parts.append(a[1] if a[2] in ("no", "stripped") else a[1].stripped())
-            elif a[2] in ("no", "stripped"):
-                parts.append(a[1])
-            else:
-                if quoted:
-                    parts.append(a[1])      # padding inside quotes is part of the token
-                else:
-                    raise Unsupported("padded number inside a token")
-        else:
-            parts.append(a[1])
-    return SStr.concat(parts)
 
 
 # ------------------------------------------------------------------------------------------------ NUM_ERR_REGEX.match
@@ -148,128 +148,6 @@ class NumMatch(MatchVal):
     def __init__(self, groups, end):
         super().__init__(groups)
         self.end = end
-
-
-def _expand_num(I, a):
-    """Units of a rendered number: optional sign, digit run, [point, digit run]."""
-    f, pad = a[1], a[2]
-    if pad in ("yes", "maybe"):
-        return None
-    u = [("optsign", a), ("digits", a)]
-    if f.kind == "f" and f.prec > 0:
-        u += [("point", a), ("digits", a)]
-    return u
-
-
-def num_match(I, s):
-    """re.match(NUM_ERR_REGEX, s) on an abstract string -> NumMatch | None | 'partial-unknown'."""
-    ats = atoms(I, s)
-    units = []          # (kind, atom index)
-    for ai, a in enumerate(ats):
-        if a[0] == "c":
-            ch = a[1]
-            kind = "digits" if ch.isdigit() and ch.isascii() else ch
-            if ch.isdigit() and not ch.isascii():
-                kind = "digits"         # \d is Unicode-aware in str patterns
-            units.append((kind, ai, None))
-        elif a[0] == "num":
-            ex = _expand_num(I, a)
-            if ex is None:
-                if a[2] == "yes":
-                    units.append((" ", ai, None))        # starts with a blank: nothing after it matters if it is first
-                    ex = [("optsign", a), ("digits", a)] + ([("point", a), ("digits", a)] if a[1].kind == "f" and a[1].prec > 0 else [])
-                    units.extend((k, ai, "sub") for k, _ in ex)
-                    continue
-                raise Unsupported("number match on a field whose padding may be empty")
-            units.extend((k, ai, "sub") for k, _ in ex)
-        else:
-            units.append(("word", ai, None))
-    n = len(units)
-    pos = 0
-
-    def kind(p):
-        return units[p][0] if p < n else None
-    if kind(0) == "word":
-        return "word"
-    # [-+]?
-    if kind(pos) in ("-", "+", "optsign"):
-        pos += 1
-    elif kind(pos) == "optsign":
-        pos += 1
-    m_start = pos
-    if kind(pos) == "digits":
-        while kind(pos) == "digits":
-            pos += 1
-        # a rendered number directly after digits would put an optional sign inside the run
-        if kind(pos) in (".", ",", "point"):
-            f_start = pos
-            pos += 1
-            while kind(pos) == "digits":
-                pos += 1
-            g3 = (f_start, pos)
-        else:
-            g3 = None
-    elif kind(pos) in (".", ",", "point") and kind(pos + 1) == "digits":
-        pos += 1
-        while kind(pos) == "digits":
-            pos += 1
-        g3 = None
-    else:
-        return None
-    if kind(pos) == "optsign" or kind(pos) == "word":
-        raise Unsupported("number immediately followed by text of unknown first character")
-    g2 = (m_start, pos)
-    g4 = None
-    if kind(pos) in ("e", "E"):
-        q = pos + 1
-        if kind(q) in ("-", "+", "optsign"):
-            q += 1
-        if kind(q) == "digits":
-            while kind(q) == "digits":
-                q += 1
-            if kind(q) in ("optsign", "word"):
-                raise Unsupported("exponent followed by text of unknown first character")
-            g4 = (pos, q)
-            pos = q
-    g1 = (0, pos)
-    g5 = None
-    if kind(pos) == "(" and kind(pos + 1) == "digits":
-        q = pos + 1
-        while kind(q) == "digits":
-            q += 1
-        if kind(q) in ("optsign", "word"):
-            raise Unsupported("uncertainty followed by text of unknown first character")
-        if kind(q) == ")":
-            g5 = (pos, q + 1)
-            pos = q + 1
-    # units -> text: group boundaries must fall on atom boundaries for rendered numbers
-    def text(span):
-        if span is None:
-            return None
-        lo, hi = span
-        first_ai = units[lo][1] if lo < n else len(ats)
-        last_ai = units[hi - 1][1]
-        for (p, q2) in ((lo, "start"), (hi, "end")):
-            pass
-        if lo < n and units[lo][2] == "sub" and lo > 0 and units[lo - 1][1] == units[lo][1]:
-            raise Unsupported("group starts inside a rendered number")
-        if hi < n and units[hi][2] == "sub" and units[hi - 1][1] == units[hi][1]:
-            raise Unsupported("group ends inside a rendered number")
-        return _join(I, ats[first_ai:last_ai + 1])
-    groups = {0: text((0, pos)), 1: text(g1), 2: None, 3: None, 4: text(g4), 5: text(g5)}
-    try:
-        groups[2] = text(g2)
-    except Unsupported:
-        groups[2] = None if False else _Opaque("group 2")
-    try:
-        groups[3] = text(g3)
-    except Unsupported:
-        groups[3] = _Opaque("group 3")
-    whole = groups[0]
-    end = len(whole) if isinstance(whole, str) else whole.length()
-    if pos == n:
-        end = len(s) if isinstance(s, str) else s.length()
-    return NumMatch(groups, end)
 
 
 class _Opaque:
@@ -282,15 +160,136 @@ class _Opaque:
         return f"<opaque {self.what}>"
 
 
+def num_match(I, s):
+    """re.match(NUM_ERR_REGEX, s) on an abstract string -> NumMatch | None.  The pattern is sign? (digits ([.,] digits*)? | [.,] digits+)
+    ([eE] sign? digits+)? ( '(' digits+ ')' )? ; every repetition is greedy and what follows it starts with a character the repetition
+    cannot take, so the first match found by the backtracking engine is the greedy one."""
+    ats = atoms(I, s)
+    units = []          # (kind, atom index, inside-a-number?)
+    for ai, a in enumerate(ats):
+        if a[0] == "c":
+            units.append(("digits" if a[1].isdecimal() else a[1], ai, False))
+        elif a[0] == "num":
+            if a[2] == "maybe":
+                raise Unsupported("number match on a field whose padding may be empty")
+            if a[2] == "yes":
+                units.append((" ", ai, False))
+            f = a[1]
+            nonneg = I_valid(I, num_cmp(">=", f.value if f.kind == "f" else f.scaled, 0)) if getattr(I, "pc", None) is not None else False
+            ex = ([] if nonneg else ["optsign"]) + ["digits"] + (["point", "digits"] if f.kind == "f" and f.prec > 0 else [])
+            units.extend((k, ai, True) for k in ex)
+        else:
+            units.append(("letter" if a[2] == "first" else "wordchars", ai, False))
+    n = len(units)
+
+    def kind(p):
+        return units[p][0] if p < n else None
+
+    def no_unknown(p, what):
+        if kind(p) in ("optsign", "wordchars"):
+            raise Unsupported(f"{what} followed by text of unknown first character")
+    pos = 0
+    if kind(pos) in ("-", "+", "optsign"):
+        pos += 1
+    m_start = pos
+    g3 = None
+    if kind(pos) == "digits":
+        while kind(pos) == "digits":
+            pos += 1
+        no_unknown(pos, "digits")
+        if kind(pos) in (".", ",", "point"):
+            f_start = pos
+            pos += 1
+            while kind(pos) == "digits":
+                pos += 1
+            no_unknown(pos, "digits")
+            g3 = (f_start, pos)
+    elif kind(pos) in (".", ",", "point") and kind(pos + 1) == "digits":
+        pos += 1
+        while kind(pos) == "digits":
+            pos += 1
+        no_unknown(pos, "digits")
+    else:
+        if kind(pos) in ("wordchars",):
+            raise Unsupported("number match on text of unknown first character")
+        return None
+    g2 = (m_start, pos)
+    g4 = None
+    if kind(pos) in ("e", "E"):
+        q = pos + 1
+        if kind(q) in ("-", "+", "optsign"):
+            q += 1
+        if kind(q) == "digits":
+            while kind(q) == "digits":
+                q += 1
+            no_unknown(q, "exponent")
+            g4 = (pos, q)
+            pos = q
+        else:
+            no_unknown(q, "exponent mark")
+    g1 = (0, pos)
+    g5 = None
+    if kind(pos) == "(" and kind(pos + 1) == "digits":
+        q = pos + 1
+        while kind(q) == "digits":
+            q += 1
+        no_unknown(q, "uncertainty")
+        if kind(q) == ")":
+            g5 = (pos, q + 1)
+            pos = q + 1
+
+    def text(span, inner=False):
+        if span is None:
+            return None
+        lo, hi = span
+        if lo == hi:
+            return ""
+        # group boundaries must fall on atom boundaries where rendered numbers are involved
+        if (units[lo][2] and lo > 0 and units[lo - 1][1] == units[lo][1]) or (hi < n and units[hi - 1][2] and units[hi][1] == units[hi - 1][1]):
+            if inner:
+                return _Opaque("inner group of a rendered number")
+            raise Unsupported("group boundary inside a rendered number")
+        return _text(ats[units[lo][1]:units[hi - 1][1] + 1])
+    groups = {0: text((0, pos)), 1: text(g1), 2: text(g2, True), 3: text(g3, True), 4: text(g4), 5: text(g5)}
+    if pos == n:
+        end = len(s) if isinstance(s, str) else s.length()
+    else:
+        w = groups[0]
+        end = len(w) if isinstance(w, str) else w.length()
+    return NumMatch(groups, end)
+
+
+# ------------------------------------------------------------------------------------------------ QUOTE_REGEX.match
+def quote_match(I, s, q, skip_ws=True):
+    """re.match(q \\s* ([^q]*) \\s* q, s): s starts with q and has another q; group = text after the leading white space (if the pattern
+    has \\s*) up to the next q."""
+    ats = atoms(I, s)
+    if not ats or not (ats[0][0] == "c" and ats[0][1] == q):
+        if ats and ats[0][0] == "w" and ats[0][2] != "first":
+            raise Unsupported("quote match on text of unknown first character")
+        return None
+    i = 1
+    while skip_ws and i < len(ats) and _is_space(ats[i]):
+        i += 1
+    if skip_ws and i < len(ats) and ats[i][0] == "num" and ats[i][2] in ("yes", "maybe"):
+        raise Unsupported("quote match: padded number after the delimiter")
+    j = i
+    while j < len(ats) and not (ats[j][0] == "c" and ats[j][1] == q):
+        j += 1
+    if j == len(ats):
+        return None             # no closing delimiter (white space is never the delimiter, so backtracking cannot find one either)
+    return NumMatch({0: _text(ats[:j + 1]), 1: _text(ats[i:j])}, None)
+
+
 # ------------------------------------------------------------------------------------------------ models
 def _facts(I):
-    """Side table: facts about terms introduced by the float model (keyed by z3 term id; terms are kept alive by the path)."""
+    """Side table: facts about terms introduced by the float model (keyed by z3 term id; the terms stay alive on the path)."""
     if not hasattr(I, "_c15_facts"):
         I._c15_facts = {}
     return I._c15_facts
 
 
-def make_models(word_partial=True):
+def make_models():
     def m_match(I, pat, s, flags=0):
         rx = _as_rx(pat, flags)
         if isinstance(s, SStr):
@@ -305,18 +304,11 @@ def make_models(word_partial=True):
                 return None
             return NumMatch({0: m.group(0), **{i + 1: g for i, g in enumerate(m.groups())}}, m.end())
         if rx.pattern == NUM_PAT and rx.flags == 0:
-            I.used_models.add("re.NUM_ERR_REGEX-on-rendered-numbers")
-            r = num_match(I, s)
-            if r == "word":
-                # text that is (by its stated class) not spelled like a number: the match, if any, stops before the end
-                I.used_models.add("re.NUM_ERR_REGEX-on-non-numeric-word")
-                b = I.fresh("bool", "numprefix")
-                if I.decide(b):
-                    e = I.fresh("int", "numend")
-                    I.assume(z3.And(e >= 1, e < z(s.length())))
-                    return NumMatch({0: _Opaque("prefix"), 1: _Opaque("prefix"), 2: None, 3: None, 4: None, 5: None}, e)
-                return None
-            return r
+            I.used_models.add("re.NUM_ERR_REGEX(structural rule)")
+            return num_match(I, s)
+        if rx.pattern in QUOTE_PATS and rx.flags == 0:
+            I.used_models.add("re.QUOTE_REGEX(structural rule)")
+            return quote_match(I, s, *QUOTE_PATS[rx.pattern])
         raise Unsupported(f"re.match of pattern {rx.pattern!r} on a symbolic string")
 
     def m_findall(I, pat, s, flags=0):
@@ -328,16 +320,16 @@ def make_models(word_partial=True):
         if isinstance(s, str):
             return rx.rx.findall(s)
         if rx.pattern == VAL_PAT and rx.flags == 0:
-            I.used_models.add("re.VALUES_REGEX-tokeniser")
+            I.used_models.add("re.VALUES_REGEX(structural rule)")
             return values_findall(I, s)
         raise Unsupported(f"re.findall of pattern {rx.pattern!r} on a symbolic string")
 
     def m_span(I, m, g=0):
         if g != 0:
             raise Unsupported("span of a sub-group")
-        if isinstance(m, NumMatch):
+        if isinstance(m, NumMatch) and m.end is not None:
             return (0, m.end)
-        w = m.groups[0]
+        w = m.groups[0]         # re.match anchors at 0
         return (0, len(w) if isinstance(w, str) else w.length())
 
     def m_float(I, v=0):
@@ -374,9 +366,7 @@ def make_models(word_partial=True):
     def m_is_integer(I, v):
         if not is_sym(v):
             return Fraction(v).denominator == 1
-        if z3.is_int(v):
-            return True
-        if z3.is_app_of(v, z3.Z3_OP_TO_REAL):
+        if z3.is_int(v) or z3.is_app_of(v, z3.Z3_OP_TO_REAL):
             return True
         I.used_models.add("float.is_integer")
         fact = _facts(I).get(v.get_id())
@@ -384,12 +374,16 @@ def make_models(word_partial=True):
             return True
         if fact and fact[0] == "scaled":
             k, p = fact[1]
-            return I.decide(z(k) % (10 ** p) == 0)      # fork: the two outcomes have different result TYPES
+            return I.decide(z(k) % (10 ** p) == 0)      # a fork: the two outcomes have different result TYPES
         return I.decide(z3.IsInt(v))
 
     def m_int(I, v=0, base=None):
-        from pyvc.libmodels import MODELS
         if is_sym(v) and z3.is_real(v):
+            fact = _facts(I).get(v.get_id())
+            if fact and fact[0] == "scaled":
+                k, p = fact[1]
+                if any(z3.eq(z(c), z(k) % (10 ** p) == 0) for c in I.pc if is_sym(c)) or I_valid(I, z(k) % (10 ** p) == 0):
+                    return z(k) / (10 ** p)         # the decimal is an integer on this path: int() of it is the exact quotient
             s = z3.simplify(v)
             if z3.is_app_of(s, z3.Z3_OP_TO_REAL):
                 return s.arg(0)
@@ -397,7 +391,7 @@ def make_models(word_partial=True):
         return MODELS["builtins.int"].fn(I, v) if base is None else MODELS["builtins.int"].fn(I, v, base)
 
     def m_groupby(I, it, key=None):
-        """itertools.groupby consumed in order (each group exhausted before the next is requested, as Cif.to_string does)."""
+        """itertools.groupby consumed in order (each group is exhausted before the next one is requested, as Cif.to_string does)."""
         items = I.iterate(it)
         out = []
         for x in items:
@@ -433,7 +427,6 @@ def make_models(word_partial=True):
         mods[name] = ModelFn(name, fn)
     mods["RegexVal.match"] = ModelFn("RegexVal.match", lambda I, rx, s: m_match(I, rx, s))
     mods["RegexVal.findall"] = ModelFn("RegexVal.findall", lambda I, rx, s: m_findall(I, rx, s))
-    from pyvc.libmodels import MODELS
     mods["NumMatch.groups"] = MODELS["MatchVal.groups"]
     mods["NumMatch.group"] = MODELS["MatchVal.group"]
     mods["_c15.hasattr"] = ModelFn("builtins.hasattr", m_hasattr)
@@ -444,41 +437,250 @@ def make_models(word_partial=True):
 def _strip_model(I, s, chars=None):
     """str.strip() for a line that starts with a rendered number: the number loses its left padding (numbers are right-aligned:
     no blanks on their right), literal ends are stripped as usual."""
-    if isinstance(s, SStr) and chars is None and s.segs and isinstance(s.segs[0], Fmt) and len(s.segs) > 1:
-        _pad_status(I, s.segs[0])       # validates the format spec
-        rest = SStr(list(s.segs[1:]))
-        last = rest.segs[-1]
-        if isinstance(last, Lit):
-            t = last.text.rstrip()
-            segs = rest.segs[:-1] + ([Lit(t)] if t else [])
-            while segs and isinstance(segs[-1], Lit) and not segs[-1].text.strip():
-                segs.pop()
-            if not all(isinstance(x, (Lit, Fmt)) or (isinstance(x, Sym) and x.lang == "noblank+") for x in segs[-1:]):
-                raise Unsupported("strip: right end of unknown class")
-        elif isinstance(last, Fmt) or (isinstance(last, Sym) and last.lang == "noblank+"):
-            segs = rest.segs
+    if chars is not None:
+        raise Unsupported("strip(chars) on a structured string")
+    _pad_status(I, s.segs[0])       # validates the format spec
+    segs = list(s.segs[1:])
+    while segs and isinstance(segs[-1], Lit):
+        t = segs[-1].text.rstrip()
+        if t:
+            segs[-1] = Lit(t)
+            break
+        segs.pop()
+    if segs and not isinstance(segs[-1], (Lit, Fmt)) and not _is_word(segs[-1]):
+        raise Unsupported("strip: right end of unknown class")
+    return SStr.concat([s.segs[0].stripped()] + segs)
+
+
+def _ws_split(I, s, first_only=False):
+    """str.split() by character class: maximal runs of non-blank atoms (a rendered number may be glued to literal text, e.g. '1.23(4)').
+    first_only: str.split(None, 1) = [first token, remainder without its leading white space]."""
+    if first_only:
+        ats = atoms(I, s)
+        i = 0
+        while i < len(ats) and _is_space(ats[i]):
+            i += 1
+        if i < len(ats) and ats[i][0] == "num" and ats[i][2] in ("yes", "maybe"):
+            raise Unsupported("split(None, 1) of a line starting with a padded number")
+        j = i
+        while j < len(ats) and not _is_space(ats[j]):
+            if ats[j][0] == "num" and ats[j][2] in ("yes", "maybe"):
+                break
+            j += 1
+        k = j
+        while k < len(ats) and _is_space(ats[k]):
+            k += 1
+        if k < len(ats) and ats[k][0] == "num" and ats[k][2] in ("yes", "maybe"):
+            if ats[k][2] == "maybe" and k == j:
+                raise Unsupported("a number whose padding may be empty directly follows non-blank text")
+            rest = [ats[k][1].stripped()] + [a[1] for a in ats[k + 1:]]
         else:
-            raise Unsupported("strip: right end of unknown class")
-        return SStr.concat([s.segs[0].stripped()] + list(segs))
-    return STR_METHODS["strip"](I, s) if chars is None else STR_METHODS["strip"](I, s, chars)
+            rest = [a[1] for a in ats[k:]]
+        out = [SStr.concat([a[1] for a in ats[i:j]])] if j > i else []
+        if rest:
+            out.append(SStr.concat(rest))
+        return out
+    toks, cur = [], []
+    for a in atoms(I, s):
+        if _is_space(a):
+            if cur:
+                toks.append(cur)
+                cur = []
+            continue
+        if a[0] == "num" and a[2] in ("yes", "maybe"):
+            if cur and a[2] == "maybe":
+                raise Unsupported("a number whose padding may be empty directly follows non-blank text")
+            if cur:
+                toks.append(cur)
+            cur = [a[1].stripped()]
+            continue
+        cur.append(a[1])
+    if cur:
+        toks.append(cur)
+    return [SStr.concat(t) for t in toks]
+
+
+def _same_text(a, b):
+    """Structural identity of two structured strings (same segment objects / same literal text)."""
+    if len(a.segs) != len(b.segs):
+        return False
+    for x, y in zip(a.segs, b.segs):
+        if isinstance(x, Lit) and isinstance(y, Lit):
+            if x.text != y.text:
+                return False
+        elif x is not y:
+            return False
+    return True
 
 
 _NUMCHARS = set("0123456789.-+")
 
 
+def _cannot_equal(item, key):
+    """Sound structural refutation of item == key for a concrete key (None: cannot tell)."""
+    minlen = sum(len(g.text) if isinstance(g, Lit) else (1 if isinstance(g, Fmt) or getattr(g, "c15_role", "mid") != "mid" else 0) for g in item.segs)
+    if len(key) < minlen:
+        return True
+    pos = 0
+    for seg in item.segs:
+        if isinstance(seg, Lit):
+            if key[pos:pos + len(seg.text)] != seg.text:
+                return True
+            pos += len(seg.text)
+        elif isinstance(seg, Fmt):
+            return True if any(ch not in _NUMCHARS for ch in key[pos:]) or pos >= len(key) else None
+        elif _is_word(seg):
+            if seg.c15_role == "first":
+                if pos >= len(key) or key[pos] not in LETTERS:
+                    return True
+                pos += 1
+            else:
+                return True if any(ch not in WORD_CHARS for ch in key[pos:]) else None
+        else:
+            return None
+    return True if pos != len(key) else None
+
+
+def _contains_lit(I, s, item):
+    """item in s, decided structurally when no character of item can occur in symbolic text (None: cannot tell)."""
+    if any(isinstance(seg, Lit) and item in seg.text for seg in s.segs):
+        return True
+    for seg in s.segs:
+        if isinstance(seg, Fmt):
+            pad = _pad_status(I, seg)
+            if item == "." and seg.kind == "f" and seg.prec > 0:
+                return True
+            if item in (".", "+") and len(item) == 1:
+                continue                # an integer rendering has no point; no '+' with sign option '-'
+            if any(ch in _NUMCHARS for ch in item):
+                return None
+            if " " in item and pad == "maybe":
+                return None
+            if item.strip(" ") == "" and pad == "yes" and len(item) == 1:
+                return True
+            if " " in item and pad == "yes":
+                return None
+        elif _is_word(seg):
+            if any(ch in WORD_CHARS for ch in item):
+                return None
+        elif not isinstance(seg, Lit):
+            return None
+    return False
+
+
+def _may_start(segs, prefix):
+    """Could the text begin with `prefix`?  (False = certainly not; symbolic words range over their character classes.)"""
+    if not prefix:
+        return True
+    if not segs:
+        return False
+    g = segs[0]
+    if isinstance(g, Lit):
+        k = min(len(g.text), len(prefix))
+        if g.text[:k] != prefix[:k]:
+            return False
+        return True if k == len(prefix) else _may_start(segs[1:], prefix[k:])
+    if _is_word(g):
+        if g.c15_role == "first":
+            return prefix[0] in LETTERS and _may_start(segs[1:], prefix[1:])
+        if g.c15_role == "last":
+            return prefix[0] in WORD_CHARS and _may_start(segs[1:], prefix[1:])
+        # mid: any number of WORD characters
+        k = 0
+        while True:
+            if _may_start(segs[1:], prefix[k:]):
+                return True
+            if k < len(prefix) and prefix[k] in WORD_CHARS:
+                k += 1
+                continue
+            return False
+    return True         # rendered numbers, unknown text: cannot tell
+
+
 class CifInterp(Interp):
-    """Stock interpreter + (a) membership of a rendered-number token in a dict of literal keys, (b) strip() of a line starting with a number."""
+    """Stock interpreter plus: dict membership / lookup with structured-string keys (by structural identity, and by character class
+    against literal keys), strip() of a line starting with a rendered number, startswith() on symbolic words."""
 
     def contains(self, container, item):
-        if isinstance(container, dict) and isinstance(item, SStr) and not isinstance(item.concrete_or_self(), str) \
-                and len(item.segs) == 1 and isinstance(item.segs[0], Fmt) and all(isinstance(k, str) for k in container):
-            if all(any(ch not in _NUMCHARS for ch in k) or k == "" for k in container):
-                return False            # a rendered number consists of digits, sign and point only
+        if isinstance(container, SStr) and not isinstance(container.concrete_or_self(), str):
+            it = item.concrete_or_self() if isinstance(item, SStr) else item
+            if isinstance(it, str) and it:
+                r = _contains_lit(self, container, it)
+                if r is not None:
+                    return r
+        if isinstance(container, dict) and isinstance(item, SStr) and not isinstance(item.concrete_or_self(), str):
+            undecided = False
+            for k in container:
+                if isinstance(k, SStr):
+                    if k is item or _same_text(k, item):
+                        return True
+                    # two symbolic names that are not the same text are DISTINCT: they stem from distinct keys of the input dict
+                elif isinstance(k, str):
+                    if _cannot_equal(item, k) is not True:
+                        undecided = True
+            if not undecided:
+                return False
         return super().contains(container, item)
 
+    def compare(self, op, l, r):
+        import ast as _ast
+        if isinstance(op, (_ast.Eq, _ast.NotEq)):
+            for a, b in ((l, r), (r, l)):
+                if isinstance(a, SStr) and not isinstance(a.concrete_or_self(), str):
+                    bc = b.concrete_or_self() if isinstance(b, SStr) else b
+                    if isinstance(bc, str) and bc == "":
+                        e = num_cmp("==", a.length(), 0)
+                        return e if isinstance(op, _ast.Eq) else (z3.Not(e) if is_sym(e) else not e)
+                    if isinstance(bc, str) and _cannot_equal(a, bc) is True:
+                        return isinstance(op, _ast.NotEq)
+                    if isinstance(bc, SStr) and _same_text(a, bc):
+                        return isinstance(op, _ast.Eq)
+        return super().compare(op, l, r)
+
+    def subscript(self, base, idx):
+        if isinstance(base, dict) and isinstance(idx, SStr) and not isinstance(idx.concrete_or_self(), str):
+            for k in base:
+                if isinstance(k, SStr) and (k is idx or _same_text(k, idx)):
+                    return base[k]
+            if all(isinstance(k, str) and _cannot_equal(idx, k) is True for k in base if not isinstance(k, SStr)) and \
+                    not any(isinstance(k, SStr) for k in base):
+                raise PyRaise("KeyError", repr(idx))
+        return super().subscript(base, idx)
+
+    def store(self, base, idx, v):
+        if isinstance(base, dict) and isinstance(idx, SStr) and not isinstance(idx.concrete_or_self(), str):
+            for k in list(base):
+                if isinstance(k, SStr) and (k is idx or _same_text(k, idx)):
+                    base[k] = v
+                    return
+                if not isinstance(k, SStr) and _cannot_equal(idx, k) is not True:
+                    raise Unsupported("store under a symbolic key that may equal an existing literal key")
+            base[idx] = v
+            return
+        return super().store(base, idx, v)
+
     def getattr(self, base, attr):
-        if attr == "strip" and isinstance(base, SStr) and base.segs and isinstance(base.segs[0], Fmt) and len(base.segs) > 1:
-            return BoundModel("str.strip(line starting with a rendered number)", _strip_model, base)
+        if isinstance(base, SStr) and base.segs and not isinstance(base.concrete_or_self(), str):
+            if attr == "split":
+                def sp(I, s, sep=None, maxsplit=-1):
+                    if sep is None and maxsplit == -1:
+                        try:
+                            return STR_METHODS["split"](I, s)
+                        except Unsupported:
+                            return _ws_split(I, s)
+                    if sep is None and maxsplit == 1:
+                        return _ws_split(I, s, first_only=True)
+                    return STR_METHODS["split"](I, s, sep, maxsplit)
+                return BoundModel("str.split", sp, base)
+            if attr == "strip" and isinstance(base.segs[0], Fmt) and len(base.segs) > 1:
+                return BoundModel("str.strip(line starting with a rendered number)", _strip_model, base)
+            if attr == "startswith" and _is_word(base.segs[0]) and base.segs[0].c15_role == "first":
+                def sw(I, s, prefix):
+                    ps = prefix if isinstance(prefix, tuple) else (prefix,)
+                    if all(isinstance(p, str) and p and not _may_start(list(s.segs), p) for p in ps):
+                        return False
+                    return STR_METHODS["startswith"](I, s, prefix)
+                return BoundModel("str.startswith(symbolic word)", sw, base)
         return super().getattr(base, attr)
 
 
@@ -492,12 +694,45 @@ def make_interp(ctx, **kw):
     mod = source.load_module("chmpy.fmt.cif")
     # `hasattr` is a special form of the engine that knows objects only; is_scalar applies it to lists and strings.  The REAL body of
     # is_scalar is executed, with the name `hasattr` bound to a model of the builtin.
-    I.module_globals[("chmpy.fmt.cif", "is_scalar")] = FuncVal(mod, mod.functions["is_scalar"], closure={"hasattr": models["_c15.hasattr"]})
+    if "is_scalar" in mod.functions:
+        I.module_globals[("chmpy.fmt.cif", "is_scalar")] = FuncVal(mod, mod.functions["is_scalar"], closure={"hasattr": models["_c15.hasattr"]})
     return I
 
 
-def word(name, first_len=None):
-    """A symbolic string of the class 'plain word' (see module doc)."""
-    s = Sym(z3.String(name), "noblank+")
-    s.c15_word = True
-    return s
+# ------------------------------------------------------------------------------------------------ conformance of the rules with `re`
+class _Dummy:
+    pc = []
+    used_models = set()
+
+
+def conformance(alphabet, maxlen):
+    """Compare the three structural rules with the real `re` module on every string over `alphabet` up to `maxlen` characters
+    (as all-literal abstract strings, digits merged into runs by the rule itself).  Returns (count, mismatches)."""
+    import itertools
+    I = _Dummy()
+    num, val = _re.compile(NUM_PAT), _re.compile(VAL_PAT)
+    quotes = {qs: _re.compile(p) for p, qs in QUOTE_PATS.items()}
+    bad = []
+    cnt = 0
+    for L in range(0, maxlen + 1):
+        for t in itertools.product(alphabet, repeat=L):
+            s = "".join(t)
+            cnt += 1
+            a = SStr([Lit(s)]) if s else SStr([])
+            m = num.match(s)
+            r = num_match(I, a)
+            exp = None if m is None else (m.end(), m.groups())
+            got = None if r is None else (r.end, tuple(r.groups[i] for i in range(1, 6)))
+            if exp != got:
+                bad.append({"rule": "NUM_ERR_REGEX.match", "string": s, "re": repr(exp), "rule_says": repr(got)})
+            if val.findall(s) != values_findall(I, a):
+                bad.append({"rule": "VALUES_REGEX.findall", "string": s, "re": val.findall(s), "rule_says": values_findall(I, a)})
+            for (q, ws), rx in quotes.items():
+                m = rx.match(s)
+                r = quote_match(I, a, q, ws)
+                if (None if m is None else m.groups()[0]) != (None if r is None else r.groups[1]):
+                    bad.append({"rule": f"QUOTE_REGEX[{q},{ws}].match", "string": s, "re": None if m is None else m.groups()[0],
+                                "rule_says": None if r is None else r.groups[1]})
+            if len(bad) > 5:
+                return cnt, bad
+    return cnt, bad
